@@ -247,7 +247,7 @@ Definition handle_switchover (cfg : config) (env : mgr_env) (m : mgr_mem) (cs : 
            (master : host) (sw : switch_rec) : prog mgr_mem :=
   t <- now_ 475 ;;
   if negb (sw_initiated_at sw =? 0) && (c_switchover_timeout cfg <? t - sw_initiated_at sw) then
-    log_switchover_failure sw ;;; fail_switchover sw ;;; Ret m
+    finish_switchover sw false ;;; Ret m            (* timed out: rejected *)
   else
   match approve_switchover cfg sw active cs with
   | Some _ => finish_switchover sw false ;;; Ret m
@@ -345,6 +345,7 @@ Definition manager_decide (cfg : config) (env : mgr_env) (m : mgr_mem) (cs csd :
   let read_failed := match rm with RVal (VMaint _) | RErr ENotFound => false | _ => true end in
   fe <- (if read_failed then Do 431 (FileExists f_maintenance) (fun r => Ret (match r with RBool b => b | _ => false end)) else Ret false) ;;
   if fe then Ret (GNext NxMaintenance, m) else
+  if read_failed then Ret (GNext NxManager, m) else      (* unreadable record: nothing is done in this iteration *)
   let light := match omt with Some mt => mt_light mt | None => false end in
   mh <- handle_maintenance cfg env m omt master ;;
   let m := snd mh in
